@@ -76,8 +76,10 @@ pub fn run(args: &[String]) {
                             let hp = p.to_hop_path();
                             let back = hp.to_as_path::<Vec<u8>>().unwrap();
                             let pre = p.prepend(asn, n).unwrap();
-                            format!("hops={} back={} backhops={} pre={}", hops_desc(&p), hex(&back.clone().into_inner()),
-                                hops_desc(&back), hops_desc(&pre))
+                            // and back to the two-octet form: the segments of a path that came off the wire keep their own octets
+                            let w16 = match hp.try_to_asn16_path::<Vec<u8>>() { Ok(p16) => hex(&p16.into_inner()), Err(_) => "E".to_string() };
+                            format!("hops={} back={} backhops={} pre={} w16={}", hops_desc(&p), hex(&back.clone().into_inner()),
+                                hops_desc(&back), hops_desc(&pre), w16)
                         });
                         writeln!(out, "WIRE {} {}", f[1], r.unwrap_or("PANIC".into())).unwrap();
                     }
